@@ -66,10 +66,11 @@ ITEMS = [
                 ('effect', f'r is Ok ==> exists|id: PolicyID| #![auto] {T2}.dom() == {T}.dom().insert(id) && {L2}.dom() == {L}.dom().insert(id) && tid({L2}[id]) == id && {M2}[id].view() == SSet::<PolicyID>::empty().insert(id) && (forall|k: PolicyID| k != id && {T}.contains_key(k) ==> {T2}[k] == {T}[k] && {M2}[k] == {M}[k]) && (forall|k: PolicyID| k != id && {L}.contains_key(k) ==> {L2}[k] == {L}[k])'),
                 FAIL]),
     Fn(PS, 'impl PolicySet > fn add', wrap=W, requires=INV + [('callers', 'add_pre(*old(self), policy)')],
+       proof_start='broadcast use axiom_static_id;',
        rewrites=[(r'oentry\.get\(\) != &t', 'vx_template_ne(oentry.get(), &t)', 1),
                  (r'std::iter::once\(policy\.id\(\)\.clone\(\)\)\.collect\(\)', 'vx_singleton(policy.id().clone())', 1)],
        ensures=[KEEP,
-                ('ok_iff', f'r is Ok <==> !{L}.contains_key(policy.spec_id()) && ({T}.contains_key(tid(policy)) ==> *{T}[tid(policy)] == policy.spec_template())'),
+                ('ok_iff', f'r is Ok <==> !{L}.contains_key(policy.spec_id()) && ({T}.contains_key(tid(policy)) ==> !policy.spec_is_static() && *{T}[tid(policy)] == policy.spec_template())'),
                 ('effect', f'r is Ok ==> {L2} == {L}.insert(policy.spec_id(), policy) && {T2}.dom() == {T}.dom().insert(tid(policy)) && *{T2}[tid(policy)] == policy.spec_template() && (forall|k: PolicyID| {T}.contains_key(k) ==> {T2}[k] == {T}[k]) && {M2}.dom() == {T2}.dom() && (forall|k: PolicyID| {M2}.contains_key(k) ==> #[trigger] {M2}[k].view() == (if k == tid(policy) {{ (if {M}.contains_key(k) {{ {M}[k].view() }} else {{ SSet::<PolicyID>::empty() }}).insert(policy.spec_id()) }} else {{ {M}[k].view() }}))'),
                 FAIL]),
     Fn(PS, 'impl PolicySet > fn get_template_arc', wrap=W,
